@@ -690,4 +690,70 @@ theorem firstLineSegment_term (lb : Nat → Nat → Bool) : ∀ (l : List Cell) 
               rw [List.getLast?_cons_cons] at hx
               exact hrec.2 x hx hterm
 
+/-! ### The row loops of Draw -/
+
+/-- One row per line: while the rows fit below `Max.Height`, the row loop writes line `k` to row
+`row + k`, and what it writes is `drawRow` of that line. -/
+theorem drawRows_spec (maxW maxH : UInt16) : ∀ (ls : List (List Cell)) (row : UInt16),
+    row.toNat + ls.length ≤ maxH.toNat + 1 →
+    (drawRows maxW maxH row ls).map (·.2) = ls.map (drawRow maxW 0) ∧
+    (drawRows maxW maxH row ls).map (·.1.toNat) = List.range' row.toNat ls.length := by
+  intro ls
+  induction ls with
+  | nil => intro row _; simp [drawRows]
+  | cons l ls ih =>
+    intro row h
+    simp only [List.length_cons] at h
+    have hle : ¬ row > maxH := by
+      rw [GT.gt, UInt16.lt_iff_toNat_lt]; omega
+    unfold drawRows
+    simp only [hle, ↓reduceIte, List.map_cons, List.length_cons, List.range'_succ]
+    cases ls with
+    | nil => simp [drawRows]
+    | cons l2 ls2 =>
+      simp only [List.length_cons] at h
+      have hm := UInt16.toNat_lt maxH
+      have hrow : (row + 1).toNat = row.toNat + 1 := by
+        rw [UInt16.toNat_add, UInt16.toNat_one]
+        omega
+      have := ih (row + 1) (by rw [hrow]; simp only [List.length_cons]; omega)
+      rw [hrow] at this
+      exact ⟨by rw [this.1], by rw [this.2]⟩
+
+/-- Columns of one row: cells of positive width that fit below `Max.Width` (and below 2^16) are all
+written, each at the column equal to the display width of the cells before it. -/
+theorem drawRow_spec (maxW : UInt16) : ∀ (l : List Cell) (col : UInt16),
+    (∀ c ∈ l, 0 < c.w) → col.toNat + sumW l ≤ maxW.toNat →
+    (drawRow maxW col l).map (·.2) = l ∧
+    ∀ k, k < l.length → ((drawRow maxW col l).map (·.1.toNat))[k]? = some (col.toNat + sumW (l.take k)) := by
+  intro l
+  induction l with
+  | nil => intro col _ _; simp [drawRow]
+  | cons c cs ih =>
+    intro col hpos hfit
+    have hc := hpos c (by simp)
+    simp only [sumW] at hfit
+    have hm := UInt16.toNat_lt maxW
+    have hlt : ¬ col ≥ maxW := by
+      rw [ge_iff_le, UInt16.le_iff_toNat_le]; omega
+    have hcol : (col + c.w16).toNat = col.toNat + c.w := by
+      rw [UInt16.toNat_add, Cell.w16, UInt16.toNat_ofNat']
+      have : c.w % 2 ^ 16 = c.w := Nat.mod_eq_of_lt (by omega)
+      rw [this]
+      exact Nat.mod_eq_of_lt (by omega)
+    unfold drawRow
+    simp only [hlt, ↓reduceIte, List.map_cons]
+    have := ih (col + c.w16) (fun x hx => hpos x (by simp [hx])) (by rw [hcol]; omega)
+    refine ⟨by rw [this.1], ?_⟩
+    intro k hk
+    cases k with
+    | zero => simp [sumW]
+    | succ k =>
+      simp only [List.length_cons] at hk
+      have := this.2 k (by omega)
+      simp only [List.getElem?_cons_succ, List.take_succ_cons, sumW]
+      rw [this, hcol]
+      congr 1
+      omega
+
 end VaxisModel.Lemmas.Wrap
